@@ -22,6 +22,8 @@ class RealFn (R : Type) where
   /-- strict order test -/
   lt : R → R → Bool
 
+instance : NatCast Float := ⟨Float.ofNat⟩
+
 instance : RealFn Float where
   pi := 3.14159265358979323846
   cos := Float.cos
